@@ -53,9 +53,18 @@ var (
 		"hj": errors.Join(errors.New("c10: first failure"), io.EOF),
 		"hs": fmt.Errorf("c10: refused: %w", stream.Conflict),
 		"hz": fmt.Errorf("c10: refused: %w", stanza.Error{Type: stanza.Cancel, Condition: stanza.BadRequest}),
+		// a stream error whose encoding does not fit the encoder's buffer (a long <text/>): what
+		// sendError hands to the encoder reaches the connection at once
+		"hb": bigStreamErr(),
 	}
 	handlerErrOps = []string{"he", "hw", "hu", "hj", "hs", "hz"}
 )
+
+func bigStreamErr() error {
+	e := stream.Error{Err: "conflict"}
+	e.Text = append(e.Text, struct{ Lang, Value string }{"en", strings.Repeat("the session was replaced. ", 700)})
+	return e
+}
 
 // conn reads from one end of a net.Pipe (so read deadlines work) and records
 // writes synchronously.
@@ -398,7 +407,7 @@ func wireItems(b []byte) (items []string, bad error) {
 }
 
 var peerOps = map[string]bool{"m": true, "y": true, "h": true, "s": true, "e": true, "p": true, "g": true, "d": true,
-	"he": true, "hw": true, "hu": true, "hj": true, "hs": true, "hz": true}
+	"he": true, "hw": true, "hu": true, "hj": true, "hs": true, "hz": true, "hb": true}
 
 type ctxT struct {
 	r      *common.Run
@@ -536,7 +545,7 @@ func (c *ctxT) hist(serve bool, ops []string, class string) {
 			outWasClosed := t.s.State()&xmpp.OutputStreamClosed != 0
 			terminal := false
 			switch op {
-			case "m", "y", "h", "s", "he", "hw", "hu", "hj", "hs", "hz":
+			case "m", "y", "h", "s", "he", "hw", "hu", "hj", "hs", "hz", "hb":
 				t.mu.Lock()
 				t.plan = append(t.plan, op)
 				t.mu.Unlock()
@@ -635,7 +644,7 @@ func (c *ctxT) hist(serve bool, ops []string, class string) {
 	if termEvent != "" {
 		want := map[string]string{"p": "nil", "e": "peerstreamerr", "s": "streamerr", "h": "handlererr", "g": "garbage", "d": "deadline", "y": "closedout",
 			"dp": "deadline", "v": "deadline", "m+": "deadline", "y+": "deadline",
-			"he": "unexpectedeof", "hw": "handlererr", "hu": "handlererr", "hj": "handlererr", "hs": "streamerr", "hz": "handlererr"}[termEvent]
+			"he": "unexpectedeof", "hw": "handlererr", "hu": "handlererr", "hj": "handlererr", "hs": "streamerr", "hz": "handlererr", "hb": "streamerr"}[termEvent]
 		if deadlineAtTerm == "dz" && termEvent != "d" && termEvent != "dp" && termEvent != "g" {
 			// the context in force had expired (zero time): Serve gives up at its next look at it
 			want = "deadline"
@@ -1016,6 +1025,7 @@ func Run(r *common.Run) error {
 		c.hist(false, h, "corpus")
 	}
 	for _, h := range [][]string{
+		{"c", "hb"}, {"c", "hb", "t1"}, {"c", "m", "hb", "c"}, {"c", "y"}, {"c", "hs"}, {"c", "h"}, {"c", "g"}, {"c", "e"},
 		{"h", "t1"}, {"s", "t2"}, {"p", "r"}, {"e", "r", "t1"}, {"c", "y"}, {"c", "p", "c"}, {"d"}, {"c", "d", "r"}, {"g"}, {"m", "y", "c", "m", "p"},
 	} {
 		c.hist(true, h, "corpus")
